@@ -1,8 +1,9 @@
 #!/usr/bin/env python3
 """Re-runs the property checks against every seeded change under /verif/seeded/<id>/ and rewrites its meta.json.
 
-For each seed: git -C /repo apply patch.diff; run the quick check of the seed's property; git -C /repo checkout -- . ;
-record exit code, number of VIOLATION lines and the first failing obligation. Never leaves /repo modified.
+Works on a frozen copy of /repo under /tmp (removed at the end), so /repo itself is never touched: for each seed the
+patch is applied to the copy, the quick check of the seed's property is run with GOVC_REPO pointing at the copy, and the
+patch is reverted. Records exit code, number of VIOLATION lines and the first failing obligations.
 usage: seed_recheck.py [seed-id ...]
 """
 import json, os, re, subprocess, sys
@@ -39,23 +40,31 @@ def sh(*a, **kw):
 
 def main():
     ids = sys.argv[1:] or sorted(os.listdir(f'{V}/seeded'))
-    st = sh('git', '-C', '/repo', 'status', '--porcelain').stdout.strip()
-    if st:
-        print('refusing: /repo has uncommitted changes:\n' + st); sys.exit(2)
+    import tempfile, shutil
+    work = tempfile.mkdtemp(prefix='govc-seedwork-')
+    sh('rsync', '-a', '--exclude', '.git', '/repo/', work + '/')
+    try:
+        run(ids, work)
+    finally:
+        shutil.rmtree(work, ignore_errors=True)
+
+def run(ids, work):
     for sid in ids:
         d = f'{V}/seeded/{sid}'
         patch = f'{d}/patch.diff'
         if not os.path.exists(patch):
             continue
         prop = sid.split('-')[0]
-        r = sh('git', '-C', '/repo', 'apply', patch)
+        r = sh('patch', '-s', '-p1', '-d', work, '-i', patch)
         if r.returncode != 0:
-            print(sid, 'patch does not apply:', r.stderr.strip()); continue
+            print(sid, 'patch does not apply:', (r.stdout + r.stderr).strip(), flush=True)
+            sh('patch', '-s', '-R', '-p1', '-d', work, '-i', patch)
+            continue
         try:
-            env = dict(os.environ, GOVC_EVIDENCE='/tmp/seed-evidence')
+            env = dict(os.environ, GOVC_EVIDENCE='/tmp/seed-evidence', GOVC_REPO=work)
             c = sh(f'{V}/bin/govc', 'check', '--property', prop, env=env)
         finally:
-            sh('git', '-C', '/repo', 'checkout', '--', '.')
+            sh('patch', '-s', '-R', '-p1', '-d', work, '-i', patch)
             sh('rm', '-rf', '/tmp/seed-evidence')
         out = c.stdout + c.stderr
         viol = [l for l in out.split('\n') if l.startswith('VIOLATION')]
@@ -71,6 +80,6 @@ def main():
             'first_failing_obligations': [o[:300] for o in obl[:3]],
         }
         json.dump(meta, open(f'{d}/meta.json', 'w'), indent=1)
-        print(f"{sid}: {meta['now']} exit={c.returncode} violations={len(viol)} {obl[0][:160] if obl else ''}")
+        print(f"{sid}: {meta['now']} exit={c.returncode} violations={len(viol)} {obl[0][:160] if obl else ''}", flush=True)
 
 main()
